@@ -13,7 +13,9 @@ LEVEL = "fault_enumeration"
 RULE = ("as C05: (connection type x request shape x context x flavour) x (every network op x fault kind) + (every "
         "suspension point x cancellation style); distinct+non-trivial = injection that fired, identified by "
         "(type, shape, context, flavour, injection label, trace phase); plus the real-socket tier: an fd ledger (/proc/self/fd) over "
-        "the three real back-ends x 13 loopback server behaviours incl. failed, timed-out and cancelled TLS handshakes")
+        "the three real back-ends x 13 loopback server behaviours incl. failed, timed-out and cancelled TLS handshakes; plus "
+        "'window' histories: a kept-alive connection whose server hangs up / whose keep-alive period runs out right after "
+        "the pool polled it (7 connection types x 4 timings x 3 flavours)")
 ASSUMPTIONS = ["simulated streams count as closed once close()/aclose() was *called* (as socket.close() precedes the "
                "checkpoint in the real back-ends)",
                "start_tls closes the transport on failure but not on cancellation, as the real back-ends do",
@@ -64,12 +66,96 @@ def run_realsock(case):
     return {"viol": viol, "counters": cnt, "sigs": sigs, "sample": None}
 
 
+def run_window(case):
+    """Between the pool's look at a kept-alive connection and the connection's own activation the server hangs up, or
+    the keep-alive period runs out (the simulated stream arms this on the readability poll). Whatever the request then
+    does, a connection that leaves the pool must have closed its stream."""
+    from .. import simnet, runners
+    from ..scenarios import Sc
+    from ..simnet import CALL
+    from ..world import run_flavor, guarded, owned_transports
+    flavor, ctype = case["flavor"], case["ctype"]
+    viol = []
+    cnt = {k: 0 for k in ["runs", "faults_fired", "cancels_fired", "oracle_quiescent_ownership", "oracle_closed_after_pool_close",
+                          "transports_opened", "windows_armed", "windows_fired"]}
+    sigs = []
+
+    async def main():
+        for arm in ("hangup-after-poll", "hangup-after-2nd-poll", "expire-after-poll", "hangup-and-expire"):
+            for n_warm in (1, 2):
+                sc = Sc(ctype, flavor, max_connections=2, resp_delay=0.0, keepalive_expiry=5.0)
+                api = sc.api
+                fired = []
+                for i in range(n_warm):
+                    CALL.set(f"warm{i}")
+                    await guarded(flavor, lambda i=i: api.request("GET", sc.url(), headers=[("X-Token", f"warm{i}")]))
+                await api.sleep(1.0)
+                polls = {"n": 0}
+                for tr in sc.net.transports:
+                    if tr.closed:
+                        continue
+
+                    def hook(tr=tr):
+                        polls["n"] += 1
+                        if arm == "hangup-after-2nd-poll" and polls["n"] < 2:
+                            tr.after_poll = hook
+                            return
+                        fired.append(tr.id)
+                        if arm in ("hangup-after-poll", "hangup-after-2nd-poll", "hangup-and-expire"):
+                            tr.server_close()
+                        if arm in ("expire-after-poll", "hangup-and-expire"):
+                            runners.SKEW[0] += 10.0
+                    tr.after_poll = hook
+                    cnt["windows_armed"] += 1
+                CALL.set("probe")
+                out = await guarded(flavor, lambda: api.request("GET", sc.url(), headers=[("X-Token", "probe")]))
+                out2 = await guarded(flavor, lambda: api.request("GET", sc.url(), headers=[("X-Token", "probe2")]))
+                cnt["runs"] += 1
+                cnt["windows_fired"] += len(fired)
+                cnt["transports_opened"] += len(sc.net.transports)
+                ctx = {"case": case, "arm": arm, "warm_requests": n_warm, "probe": repr(out), "probe2": repr(out2),
+                       "fired_on": fired}
+                if fired:
+                    sigs.append(f"window|{ctype}|{flavor}|{arm}|{n_warm}|{out.kind}")
+                if out.kind == "hang" or out2.kind == "hang":
+                    viol.append({"key": f"window:hang:{arm}", "what": f"{out!r} {out2!r}", "detail": ctx})
+                cnt["oracle_quiescent_ownership"] += 1
+                owned = set()
+                for c in sc.pool.connections:
+                    owned |= owned_transports(c)
+                orphans = [t.id for t in sc.net.transports if not t.closed and t.id not in owned]
+                if orphans:
+                    viol.append({"key": f"leak:orphan-at-quiescence:window:{arm}",
+                                 "what": f"open stream(s) {orphans} belong to no pooled connection after the request "
+                                         f"({out!r})", "detail": ctx})
+                await guarded(flavor, api.close_pool)
+                cnt["oracle_closed_after_pool_close"] += 1
+                still = [t.id for t in sc.net.transports if not t.closed]
+                if still and not orphans:
+                    viol.append({"key": f"leak:open-after-pool-close:window:{arm}", "what": f"{still}", "detail": ctx})
+                runners.SKEW[0] = 0.0
+
+    run_flavor(flavor, None, main, seed=0)
+    seen = set()
+    out = []
+    for x in viol:
+        if x["key"] not in seen:
+            seen.add(x["key"])
+            out.append(x)
+    return {"viol": out, "counters": cnt, "sigs": sigs, "sample": None}
+
+
 def run_case(case):
     if case.get("realsock"):
         return run_realsock(case)
+    if case.get("window"):
+        return run_window(case)
     return run_enumeration(case, judge, {"oracle_quiescent_ownership": 0, "oracle_closed_after_pool_close": 0,
                                          "transports_opened": 0})
 
 
 def plan(tier, seed):
-    return plan_cases(tier, seed + 1000) + [{"realsock": True, "backend": be} for be in ("sync", "anyio", "trio")]
+    windows = [{"window": True, "ctype": ct, "flavor": fl} for ct in ("h1", "h1tls", "h2", "fwd", "tun", "socks", "maybe-h2")
+               for fl in ("asyncio", "trio", "sync")]
+    return (plan_cases(tier, seed + 1000) + [{"realsock": True, "backend": be} for be in ("sync", "anyio", "trio")]
+            + windows)
